@@ -405,12 +405,17 @@ def _():
 def _():
     def call(W, a):
         if a["idxs"] is None:
+            if a.get("pit_ids"):   # the full basin map with user ids for the pits
+                npit = int(np.asarray(W.flw.idxs_pit).size)
+                return W.flw.basins(ids=np.array([a["pit_ids"] + 3 * k for k in range(npit)], dtype=np.dtype(a["idt"])))
             return W.flw.basins()
         ids = None if a["ids"] is None else np.array(a["ids"], dtype=np.dtype(a["idt"]))
         return W.flw.basins(idxs=np.array(a["idxs"]), ids=ids)
 
     def gen(rng, w):
         if rng.random() < 0.4:
+            if rng.random() < 0.4:
+                return {"idxs": None, "pit_ids": rng.randint(2, 40), "idt": rng.choice(["uint8", "uint32", "int64"])}
             return {"idxs": None}
         k = rng.randint(1, 3)
         idxs = rng.sample(w["valid"], min(k, len(w["valid"])))
@@ -659,6 +664,67 @@ def _():
     return _noargs, call
 
 
+# ---------------------------------------------------------------------------------------------
+# ageing: run catalogue queries on an EXISTING object (any harness' object), so that what a property
+# harness observes comes from an object with warm / argument-dependent caches (C12: unobservable)
+# ---------------------------------------------------------------------------------------------
+MUTATING_OPS = {"order_cells", "add_pits", "repair_loops", "set_transform"}
+_HEAVY = {"upscale", "ucat", "subgrid_riv", "from_dem", "fill_depressions_idxs_pit", "slope", "spread2d", "regions",
+          "gis_utils", "conversion", "from_array", "k_path_snap", "k_distance_slope_spread", "k_subgrid_slope",
+          "subbasins_pfafstetter", "dem_dig_d4"}
+
+
+class AdhocWorld(World):
+    """a World around an object somebody else built (same interface for the op callers)"""
+
+    def __init__(self, flw, rng):
+        from common import canon_idx
+        n = int(flw.size)
+        ds = canon_idx(flw.idxs_ds, n)
+        shp = getattr(flw, "shape", n)
+        shape = tuple(int(x) for x in shp) if hasattr(shp, "__len__") else (n,)
+        raster = len(shape) == 2
+        valid = [i for i in range(n) if ds[i] != n]
+        loc = list(range(1, n + 1))
+        rng.shuffle(loc)
+        self.w = {"cls": "raster" if raster else "vector", "ds": ds, "shape": list(shape), "dtype": flw.idxs_ds.dtype.name,
+                  "latlon": bool(getattr(flw, "latlon", False)), "cache": bool(getattr(flw, "cache", True)),
+                  "noncontig": rng.choice([None, None, None, "strided", "fortran", "transposed"]),
+                  "area_distinct": [float(x) + 0.001 * i for i, x in enumerate(loc)],
+                  "elev": [rng.randint(0, 30) for _ in range(n)], "elevf": [rng.randint(0, 120) / 4 for _ in range(n)],
+                  "ints": [rng.randint(-3, 9) for _ in range(n)], "mask": [bool(rng.random() < 0.35) for _ in range(n)],
+                  "holes": [(-9999 if rng.random() < 0.5 else rng.randint(1, 6)) for _ in range(n)], "valid": valid}
+        self.n = n
+        self.dtype = flw.idxs_ds.dtype.type
+        self.shape = shape
+        self.transform = getattr(flw, "transform", None)
+        self.flw = flw
+        self.mv = int(flw._mv)
+
+
+def age(flw, rng, focus=(), k=None, loopfree=True, heavy=False):
+    """run `k` (default 1..4) random non-mutating catalogue operations with random documented-domain arguments on
+    `flw`; operations named in `focus` are preferred (same-method earlier calls with other arguments). Results and
+    exceptions are discarded: ageing never decides anything. Returns the list of (op, args) that ran."""
+    W = AdhocWorld(flw, rng)
+    if not W.w["valid"]:
+        return []
+    cls = W.w["cls"]
+    names = [nm for nm, o in OPS.items() if cls in o["classes"] and nm not in MUTATING_OPS and o["group"] != "kernel"
+             and (heavy or nm not in _HEAVY or nm in focus) and (loopfree or nm in LOOP_SAFE)]
+    foc = [nm for nm in focus if nm in names]
+    ran = []
+    for _ in range(k if k is not None else rng.randint(1, 4)):
+        nm = rng.choice(foc) if foc and rng.random() < 0.6 else rng.choice(names)
+        try:
+            a = OPS[nm]["gen"](rng, W.w)
+            ran.append((nm, a))
+            OPS[nm]["call"](W, a)
+        except Exception:  # noqa: BLE001
+            pass
+    return ran
+
+
 # ---- documented-error cases (C13): (name, call, expected exception class name) -----------------
 def error_cases(W):
     import pyflwdir
@@ -673,6 +739,7 @@ def error_cases(W):
         ("accuflux(wrong size)", lambda: f.accuflux(np.ones(n + 1)), "ValueError"),
         ("path(direction='x')", lambda: f.path(idxs=np.array([W.w["valid"][0]]), direction="x"), "ValueError"),
         ("river_depth(no slope information)", lambda: f.river_depth(W.arr("area_distinct", np.float64), W.arr("elev", np.float64) + 1), "ValueError"),
+        ("river_depth(gvf without zs/rivdst)", lambda: f.river_depth(W.arr("area_distinct", np.float64), W.arr("elev", np.float64) + 1, rivslp=W.arr("elevf", np.float64) / 1000 + 1e-4, method="gvf"), "ValueError"),
         ("river_depth(method='x')", lambda: f.river_depth(W.arr("area_distinct", np.float64), W.arr("elev", np.float64) + 1, method="x"), "ValueError"),
     ]
     if W.w["cls"] == "raster":
@@ -703,6 +770,15 @@ def error_cases(W):
             ("fill_depressions(connectivity=6)", lambda: dem.fill_depressions(W.arr("elevf", np.float32), connectivity=6), "ValueError"),
             ("area_grid(unit='x')", lambda: g.area_grid(W.transform, W.shape, unit="x"), "ValueError"),
             ("xy(offset='x')", lambda: g.xy(W.transform, 0, 0, offset="x"), "ValueError"),
+            ("snap(unit='km')", lambda: f.snap(idxs=np.array([W.w["valid"][0]]), unit="km"), "ValueError"),
+            ("snap(direction='x')", lambda: f.snap(idxs=np.array([W.w["valid"][0]]), direction="x"), "ValueError"),
+            ("subgrid_rivlen(unit='x')", lambda: f.subgrid_rivlen(None, unit="x"), "ValueError"),
+            ("subgrid_rivavg(direction='x')", lambda: f.subgrid_rivavg(None, W.arr("elevf", np.float64), direction="x"), "ValueError"),
+            ("subgrid_rivmed(direction='x')", lambda: f.subgrid_rivmed(None, W.arr("elevf", np.float64), direction="x"), "ValueError"),
+            ("upscale(nextxy network)", lambda: pyflwdir.FlwdirRaster(f.idxs_ds.copy(), W.shape, "nextxy").upscale(2), "ValueError"),
+            ("from_array(invalid data for explicit ftype)", lambda: pyflwdir.from_array(np.full(W.shape, 3, dtype=np.uint8), ftype="d8"), "ValueError"),
+            ("region_bounds(1-D regions)", lambda: __import__("pyflwdir").regions.region_bounds(np.ones(4, dtype=np.int32), W.transform), "ValueError"),
+            ("region_slices(1-D)", lambda: __import__("pyflwdir").regions.region_slices(np.ones(4, dtype=np.int32)), "ValueError"),
             ("region_dissolve(no labels)", lambda: __import__("pyflwdir").regions.region_dissolve(f.basins().astype(np.int32)), "ValueError"),
         ]
     return cases
